@@ -86,7 +86,7 @@ def conc_metric(rng, s, cid):
         xs = [i for i in idx if frags[i] is None]
         if not xs:
             continue
-        text = ("c12.s%d.l%d.%s %d.%d %d" % (cid, j, rng.choice(["cpu", "mem.used", "a;t=v"]), rng.randrange(1000),
+        text = ("c12.s%d.l%d.%s%s %d.%d %d" % (cid, j, "p" * max(0, len(xs) - 16), rng.choice(["cpu", "mem.used", "a;t=v"]), rng.randrange(1000),
                                               rng.randrange(100), 1500000000 + rng.randrange(10 ** 8))).encode()
         cuts = sorted(rng.sample(range(1, len(text)), len(xs) - 1)) if len(xs) > 1 else []
         parts = [text[a:b] for a, b in zip([0] + cuts, cuts + [len(text)])]
